@@ -19,7 +19,7 @@ out     := f <kind> | t <hex> | b <hex> | r <0|1> rstate out | fl <id> <hc> <hi>
 rstate  := <code> <hexline> <nh> (<k> <nv> (g <hex> | x)*)* <nc> (<k> <v>)*
 item    := e | t <hex> | b <hex> | y out | rr out | ex | un <hex>
 errh    := c out | bd | ex
-req     := <id> <head> <fw> <pathok> <hexpath> <hexurlrepr> route
+req     := <id> <head> <fw> <pathok> <hexpath> <hexurlrepr> <json> route
 route   := h handler | nf | na <hexallow>
 handler := effs (ret out | rr out | ex)
 hreq    := req <bodyerr>                     bodyerr := - | RequestError | BodySizeError | BodyParsingError
@@ -192,9 +192,10 @@ def pReq : P Req := do
   let pok ← pBool
   let path ← pStr
   let url ← pStr
+  let js ← pBool
   let route ← pRoute
   pure { id := id, isHead := head, fileWrapper := fw, pathOK := pok, path := path, urlRepr := url,
-         route := route }
+         json := js, route := route }
 
 def showEvent : Event → String
   | .before i => s!"b{i}"
